@@ -11,7 +11,7 @@ From stdpp Require Import gmap strings.
 From Coq Require Import NArith.
 From Verif Require Store.Model.
 From Verif Require Import Catalog.StoreOrphans.
-From Verif Require Import Catalog.Model Catalog.Spec Catalog.VIP Catalog.Reach Catalog.Refuted Catalog.Usage Catalog.KindNames Catalog.Examples Catalog.Orphans Catalog.Topology.
+From Verif Require Import Catalog.Model Catalog.Spec Catalog.VIP Catalog.Reach Catalog.Refuted Catalog.Usage Catalog.KindNames Catalog.Examples Catalog.Orphans Catalog.Topology Catalog.ConfUsage Catalog.ManualVIP.
 Local Open Scope N_scope.
 
 Module S := Verif.Store.Model.
@@ -95,6 +95,20 @@ Theorem C07_vip_allocator : forall s, CReach s ->
   forall n ip m, vips s !! n = Some (ip, m) -> 0 < ip <= counter s /\ ip ∉ free s.
 Proof. exact vip_allocator. Qed.
 
+(* manual virtual IPs: no address is in the manual lists of two services (a request takes each of its
+   addresses away from the service that held it).  NOT covered: a manual address that equals the
+   AUTOMATIC address of another service -- the code accepts it (open finding vip-unique /
+   manual-ip-in-auto-range), and the model keeps manual addresses as opaque strings. *)
+Theorem C07_vip_manual_unique : forall s, CReach s ->
+  forall n1 n2 a1 m1 a2 m2 (x : string),
+    vips s !! n1 = Some (a1, m1) -> vips s !! n2 = Some (a2, m2) -> x ∈ m1 -> x ∈ m2 -> n1 = n2.
+Proof. exact manual_vip_unique. Qed.
+
+Example C07_vip_manual_example :
+  let s := (run manual_log st0).1 in
+  CReach s /\ vips s !! "web" = Some (1, ["1.1.1.1"]) /\ vips s !! "db" = Some (2, ["2.2.2.2"; "3.3.3.3"]).
+Proof. exact manual_example. Qed.
+
 (* in every reachable state, an instance that advertises a virtual IP is in the connect index and
    advertises the current assignment of the service it is indexed under (its own name if
    connect-native, its destination if a sidecar proxy).  True of every instance since /repo 8e1bd1c
@@ -130,6 +144,25 @@ Proof. exists (run vip_log st0).1. split; [apply CReach_run|exact vip_repaired_e
 Theorem C07_derived_usage : forall s, CReach s ->
   forall id, id ∈ svc_usage_ids -> stored_usage s id = recompute_usage s id.
 Proof. exact usage_recomputed. Qed.
+
+(* the four config-entry counters (config-entries-<kind>) equal the number of entries of that kind;
+   behind it: an entry is always stored under the key (its own kind, its name), so an update in
+   place never changes a kind *)
+Theorem C07_derived_usage_confs : forall s, CReach s ->
+  forall kind, kind ∈ conf_kinds -> stored_usage s (conf_usage kind) = recompute_usage s (conf_usage kind).
+Proof. exact conf_usage_recomputed. Qed.
+
+(* together: every counter of the usage table the model has (all thirteen ids) *)
+Theorem C07_derived_usage_all : forall s, CReach s ->
+  forall id, id ∈ usage_ids -> stored_usage s id = recompute_usage s id.
+Proof. exact usage_all_recomputed. Qed.
+
+Example C07_derived_usage_confs_example :
+  let s := (run conf_usage_log st0).1 in
+  CReach s /\ stored_usage s (conf_usage "terminating-gateway") = 1 /\ stored_usage s (conf_usage "ingress-gateway") = 0 /\
+  stored_usage s (conf_usage "service-defaults") = 2 /\ stored_usage s (conf_usage "service-resolver") = 1 /\
+  stored_usage (run (take 2 conf_usage_log) st0).1 (conf_usage "ingress-gateway") = 1.
+Proof. exact conf_usage_example. Qed.
 
 (* one commit step, for arbitrary states: if the counters were right before, they are right after *)
 Theorem C07_derived_usage_step : forall before after,
@@ -306,11 +339,16 @@ Print Assumptions C07_cascade_node_catalog.
 Print Assumptions C07_cascade_service_catalog.
 Print Assumptions C07_vip_unique.
 Print Assumptions C07_vip_allocator.
+Print Assumptions C07_vip_manual_unique.
+Print Assumptions C07_vip_manual_example.
 Print Assumptions C07_vip_advertised.
 Print Assumptions C07_vip_advertised_example.
 Print Assumptions C07_derived_usage.
 Print Assumptions C07_derived_usage_consul_example.
 Print Assumptions C07_derived_usage_step.
+Print Assumptions C07_derived_usage_confs.
+Print Assumptions C07_derived_usage_all.
+Print Assumptions C07_derived_usage_confs_example.
 Print Assumptions C07_derived_usage_example.
 Print Assumptions C07_derived_kindnames_refuted.
 Print Assumptions C07_derived_kindnames_partial.
